@@ -21,8 +21,7 @@ if os.path.exists(p):
         m=re.match(r'(C\d\d-\d+): exit=(\d) violations=(\d+) ?(.*)',l.strip())
         if m: res[m.group(1)]=(m.group(2),m.group(3),m.group(4))
 srows=["| change | what it does (one line) | result | first failing obligation |","|----|----|----|----|"]
-missing={"C02-11":"`AddExpried` writes one LOCK record per depth of the hold in a loop that the change cuts short after the first record; a post-condition counting the records (`calls(PushLockAof) == lock.locked`) was tried and is not provable on the unchanged tree either: the calls in front of the loop may, by their frames, change the fields the loop's guard reads, and the guard's own values cannot be named afterwards",
-"C09-11":"the follower's append loop (`ProcessAofAppend`) keeps its resume position in a local 16-byte array copied from the record buffer; the change moves the copy into one branch of a `select` - a clause would have to relate the local to the last appended record across a `select` with channel receives, which the engine models as fresh values",
+missing={"C09-11":"the follower's append loop (`ProcessAofAppend`) keeps its resume position in a local 16-byte array copied from the record buffer; the change moves the copy into one branch of a `select` - a clause would have to relate the local to the last appended record across a `select` with channel receives, which the engine models as fresh values",
 "C12-11":"the candidate's client returns the refusal wrapped with `fmt.Errorf(\"%w\")` instead of the bare sentinel the caller compares with `==`; error identity through `fmt.Errorf` / `errors.Is` is outside the fragment (both are fresh non-nil interfaces to the engine)",
 "C17-11":"the last reference of a key can be dropped inside the wake pass itself; that the pass then reclaims the key needs the value of `lockManager.waited` at the test after the loop, which the loop cut forgets (a clause written with `atsection()` fails on the unchanged tree as well)",
 "C05-1":"the millisecond wheel's hand-over to the second wheel is not under contract: the bucket's entries live in the same element map that `AddTimeOut` may write, so facts about the remaining entries do not survive the call (needs object-granular frames on arrays)"}
